@@ -19,4 +19,19 @@ def _oracle(desc, orig_blocks, g, k, payload):
     return errs
 
 
-check, harness, jobs, replay = make(_oracle, stages=(1, 2, 3))
+check, harness, _jobs, _replay = make(_oracle, stages=(1, 2, 3))
+
+
+def jobs(tier):
+    from vf.props.C14 import edit_step_jobs
+
+    js = _jobs(tier)
+    return js[:2] + edit_step_jobs("tables") + js[2:]
+
+
+def replay(desc):
+    if desc.get("kind") == "edit-step":
+        from vf.props.C14 import edit_step
+
+        return edit_step(desc["pre"], desc["ops"], "tables")
+    return _replay(desc)
